@@ -133,6 +133,31 @@ impl Display for DocumentConfig {
     }
 }
 
+/// Renders a string as a double-quoted YAML scalar. JSON strings are valid YAML
+/// flow scalars, so quotes, backslashes and control characters are escaped.
+fn yaml_quoted(value: &str) -> String {
+    serde_json::to_string(value).unwrap_or_else(|_| format!("{:?}", value))
+}
+
+/// Renders a string as plain YAML scalar if it is safe to do so in a flow mapping,
+/// otherwise as a double-quoted scalar
+fn yaml_plain_or_quoted(value: &str) -> String {
+    let is_plain = !value.is_empty()
+        && value
+            .chars()
+            .all(|c| c.is_ascii_alphanumeric() || matches!(c, '_' | '.' | '/' | '-'))
+        && value.chars().next().is_some_and(|c| c.is_ascii_alphabetic() || matches!(c, '_' | '/'))
+        && !matches!(
+            value.to_ascii_lowercase().as_str(),
+            "true" | "false" | "null" | "yes" | "no" | "on" | "off" | "y" | "n"
+        );
+    if is_plain {
+        value.to_string()
+    } else {
+        yaml_quoted(value)
+    }
+}
+
 fn is_none_or_default_timeout(timeout: &Option<Duration>) -> bool {
     if let Some(timeout) = timeout {
         timeout.as_secs() == DEFAULT_DOCUMENT_TIMEOUT
@@ -452,7 +477,7 @@ impl TestCaseConfig {
                 output.push(format!(
                     "wait: {{timeout: {}, path: {}}}",
                     duration,
-                    path.to_string_lossy(),
+                    yaml_plain_or_quoted(&path.to_string_lossy()),
                 ))
             } else {
                 output.push(format!("wait: {}", duration))
@@ -461,8 +486,11 @@ impl TestCaseConfig {
         if !self.environment.is_empty() {
             let mut envvars = vec![];
             for (key, value) in self.environment.iter() {
-                // TODO: this will bereak break if the value contains double quotes => use `quote-string` crate?
-                envvars.push(format!("{}: \"{}\"", key, value))
+                envvars.push(format!(
+                    "{}: {}",
+                    yaml_plain_or_quoted(key),
+                    yaml_quoted(value)
+                ))
             }
             output.push(format!("environment: {{{}}}", envvars.join(", ")));
         }
